@@ -3,4 +3,6 @@ pub mod core;
 pub mod c03;
 pub mod c12;
 pub mod c17;
+pub mod c31;
+pub mod alloc;
 pub mod driver;
